@@ -1,25 +1,107 @@
-"""Engine cross-validation: run a harness function CONCRETELY (no tracing, same patched module, same stubs) on every
-tuple of a small finite argument space and report the tuples for which it returns False / raises.
+"""Engine cross-validation: run a harness function CONCRETELY (no tracing; same module, same stubs, same environment pins)
+on the tuples of a finite argument space that satisfy its `pre:` lines, and report those for which it returns False/raises.
 
 This is NOT the deciding step of any check (that is the solver's verdict over the symbolic arguments); it guards the
-symbolic engine itself: crosshair-tool 0.0.110 models some built-ins (found: `dict | crosshair_map`) differently from
-CPython, and a harness function that is False concretely while CrossHair confirms it is exactly how such a modelling
-defect shows.  usage: concrete_worker.py <module.py> <function> <json list of [lo,hi) ranges>"""
+symbolic engine itself: crosshair-tool 0.0.110 models some built-ins differently from CPython (found: `dict | crosshair_map`
+lets the LEFT operand win), and a harness function that is False concretely while CrossHair confirms it is exactly how
+such a modelling defect shows.  When the space is larger than `max` a seeded sample of it is run.
+The argument space: `ranges` when given, else the module's CC[<function>], else inferred - every int argument ranges over
+[-13, 100), narrowed by the conjuncts of the `pre:` lines that mention only that argument; the remaining conjuncts filter
+the product.  (Functions with non-int/bool arguments are not swept.)
+usage: concrete_worker.py <module.py> <function> <json {"ranges": [[lo,hi),...]?, "max": N, "seed": s}>"""
+import ast
 import importlib.util
-import itertools
+import inspect
 import json
+import random
 import sys
+import time
 
 
 def main():
-    mod_path, fname, ranges = sys.argv[1], sys.argv[2], json.loads(sys.argv[3])
+    mod_path, fname, spec_ = sys.argv[1], sys.argv[2], json.loads(sys.argv[3])
+    ranges, cap, seed = spec_.get("ranges"), int(spec_.get("max", 300)), int(spec_.get("seed", 0))
+    budget = float(spec_.get("budget_s", 120))
     spec = importlib.util.spec_from_file_location("cc_harness", mod_path)
     m = importlib.util.module_from_spec(spec)
     sys.modules["cc_harness"] = m
     spec.loader.exec_module(m)
     fn = getattr(m, fname)
-    bad, n = [], 0
-    for args in itertools.product(*[range(lo, hi) for lo, hi in ranges]):
+    sig = inspect.signature(fn)
+    names = list(sig.parameters)
+    kinds = [sig.parameters[n].annotation for n in names]
+    pres = [ln.strip()[4:].strip() for ln in (fn.__doc__ or "").splitlines() if ln.strip().startswith("pre:")]
+    if any(k not in (int, bool) for k in kinds):
+        print("@@CC " + json.dumps({"error": "not swept: non-int arguments", "runs": 0, "bad": [], "n_bad": 0}))
+        return
+    if ranges is None:
+        ranges = getattr(m, "CC", {}).get(fname)
+    if ranges is not None:
+        assert len(ranges) == len(names), (names, ranges)
+        doms = [list(range(lo, hi)) for lo, hi in ranges]
+    else:
+        # unary conjuncts of the preconditions narrow each argument's domain
+        conj = []
+        for p in pres:
+            t = ast.parse(p, mode="eval").body
+            conj.extend(t.values if isinstance(t, ast.BoolOp) and isinstance(t.op, ast.And) else [t])
+        unary = {n: [] for n in names}
+        for t in conj:
+            used = {x.id for x in ast.walk(t) if isinstance(x, ast.Name)} & set(names)
+            if len(used) == 1:
+                unary[used.pop()].append(compile(ast.Expression(t), "<pre>", "eval"))
+        doms = []
+        for n, kind in zip(names, kinds):
+            base = [0, 1] if kind is bool else list(range(-13, 100))
+            ok = []
+            for v in base:
+                try:
+                    if all(eval(c, m.__dict__, {n: (bool(v) if kind is bool else v)}) for c in unary[n]):
+                        ok.append(v)
+                except Exception:  # noqa
+                    pass
+            doms.append(ok)
+    sizes = [len(d) for d in doms]
+    total = 1
+    for s in sizes:
+        total *= s
+    if total == 0:
+        print("@@CC " + json.dumps({"error": "empty argument space", "runs": 0, "bad": [], "n_bad": 0}))
+        return
+
+    def decode(k):
+        out = []
+        for d, s, kind in zip(doms, sizes, kinds):
+            v = d[k % s]
+            k //= s
+            out.append(bool(v) if kind is bool else v)
+        return tuple(out)
+
+    def admissible(args):
+        env = dict(zip(names, args))
+        try:
+            return all(eval(p, m.__dict__, env) for p in pres)
+        except Exception:  # noqa
+            return False
+
+    rnd = random.Random(seed)
+    order = range(total) if total <= 20 * cap else (rnd.randrange(total) for _ in range(40 * cap))
+    cands, seen = [], set()
+    for k in order:
+        if k in seen:
+            continue
+        seen.add(k)
+        a = decode(k)
+        if admissible(a):
+            cands.append(a)
+    whole = total <= 20 * cap and len(cands) <= cap
+    if len(cands) > cap:
+        cands = rnd.sample(cands, cap)
+    bad, n, t0 = [], 0, time.time()
+    for args in cands:
+        if time.time() - t0 > budget:
+            whole = False
+            break
         n += 1
         try:
             ok = fn(*args)
@@ -27,8 +109,9 @@ def main():
         except Exception as e:  # noqa
             ok, why = False, "%s: %s" % (type(e).__name__, e)
         if not ok:
-            bad.append({"args": list(args), "why": why})
-    print("@@CC " + json.dumps({"runs": n, "bad": bad[:50], "n_bad": len(bad)}))
+            bad.append({"args": list(args), "why": why[:200]})
+    print("@@CC " + json.dumps({"runs": n, "bad": bad[:20], "n_bad": len(bad), "space": total, "whole_space": whole,
+                                 "first": list(cands[len(cands) // 2]) if cands else None}))
 
 
 if __name__ == "__main__":
